@@ -272,7 +272,22 @@ class GarbageCollector:
         return deleted_count
 
     def _normalize_path(self, path: str) -> str:
-        """Normalize path to be relative to table root and strip leading slashes."""
-        if path.startswith(self.table_path):
-            path = path[len(self.table_path):]
+        """Normalize path to be relative to table root and strip leading slashes.
+
+        Stored and listed paths are table-relative ("data/x", "/data/x"). Only a
+        true absolute path that lies under an ABSOLUTE table location, on a path
+        component boundary, has the location stripped. Stripping table_path as a
+        raw string prefix mangled ordinary relative paths whenever the table
+        location was itself a prefix of them: for a table at "data" or "d" the
+        reachable "data/x.parquet" became "/x.parquet" / "ata/x.parquet", every
+        live data file looked unreachable and was deleted; for "m"/"metadata"
+        every collection aborted.
+        """
+        table_path = self.table_path.rstrip("/")
+        if table_path.startswith("/") and path.startswith(table_path + "/"):
+            rest = path[len(table_path) + 1:]
+            # "/data/x" under a table at "/data" is the table-relative spelling,
+            # not an absolute one: strip only if a table directory follows.
+            if rest.startswith(("data/", "metadata/")):
+                return rest
         return path.lstrip("/")
